@@ -193,14 +193,23 @@ pub struct FaultWriter {
     pub failed: bool,
     /// the buffer passed to the write call that failed
     pub failing_buf: Option<Vec<u8>>,
+    /// once the limit is reached, answer Ok(0) ("no room", like a full `&mut [u8]`)
+    /// instead of an error
+    pub full_is_zero: bool,
 }
 
 impl FaultWriter {
     pub fn new(limit: Option<usize>, chunks: Option<Vec<usize>>) -> Self {
-        FaultWriter { accepted: vec![], limit, chunks, step: 0, writes: 0, flushes: 0, failed: false, failing_buf: None }
+        FaultWriter { accepted: vec![], limit, chunks, step: 0, writes: 0, flushes: 0, failed: false, failing_buf: None, full_is_zero: false }
     }
     pub fn plain() -> Self {
         Self::new(None, None)
+    }
+    /// Accepts exactly `limit` bytes, then answers Ok(0) to every write.
+    pub fn full_after(limit: usize) -> Self {
+        let mut w = Self::new(Some(limit), None);
+        w.full_is_zero = true;
+        w
     }
 }
 
@@ -221,6 +230,9 @@ impl Write for FaultWriter {
                 self.failed = true;
                 if self.failing_buf.is_none() {
                     self.failing_buf = Some(buf.to_vec());
+                }
+                if self.full_is_zero {
+                    return Ok(0);
                 }
                 return Err(injected_write_error(limit));
             }
